@@ -20,7 +20,7 @@ section
 variable {c : Cfg} {s s' : State} {t : Nat} {lb : Lbl}
 
 set_option maxHeartbeats 4000000 in
-theorem Inv4.step_m1 (I : Inv1 c s) (J : Inv2 c s) (K : Inv3 c s) (M : Inv4 c s) (h : StepCase c s t lb s') :
+theorem Inv4.step_m1 (I : Inv1 c s) (J : Inv2 c s) (B : Inv2b s) (K : Inv3 c s) (M : Inv4 c s) (h : StepCase c s t lb s') :
     s'.firstMarker ≠ none → s'.stopCalled = true ∧ balExited c s' := by
   intro hfm
   have m1 := M.m1
@@ -49,12 +49,15 @@ theorem Inv4.step_m1 (I : Inv1 c s) (J : Inv2 c s) (K : Inv3 c s) (M : Inv4 c s)
   have hne1 := dispatchPc_ne
   have hne2 := onEmpty_ne
   have hst0 : ∀ k, s.pc t = .gTake .stop k → (s.pc t).role = .stopper ∧ (s.pc t).pastB = true := by
-    intro k hp; rw [hp] at hwf ⊢; exact contOK_stop_role c k hwf
+    intro k hp
+    have hnb : ∀ k', k ≠ .bSweep k' := by
+      intro k' e; subst e; have := B.l9 t .stop k' hp; simp [Item.isTask] at this
+    rw [hp] at hwf ⊢; simp only [Pc.role, Pc.pastB]; exact contOK_stop_role c k hwf hnb
   have hidle : s.pc t = .idle → t ∉ c.workers := by
     intro hi hw; rcases I.r4 t hw with h1 | h1 <;> simp [hi, Pc.role] at h1
   have hbs : s.pc t = .bStopping → t ∉ c.workers := by
     intro hi hw; rcases I.r4 t hw with h1 | h1 <;> simp [hi, Pc.role] at h1
-  clear I J K M hwf
+  clear I J B K M hwf
   cases h
   case popClaim ctx i0 k0 nr cl hpc hq hi hcell hfull =>
     have hit := (isTask_iff cl.item).mp (l4 k0 i0 cl hcell)
@@ -78,7 +81,7 @@ theorem Inv4.step_m1 (I : Inv1 c s) (J : Inv2 c s) (K : Inv3 c s) (M : Inv4 c s)
   all_goals (trace_state; sorry)
 
 set_option maxHeartbeats 4000000 in
-theorem Inv4.step_m2 (I : Inv1 c s) (J : Inv2 c s) (K : Inv3 c s) (M : Inv4 c s) (h : StepCase c s t lb s') :
+theorem Inv4.step_m2 (I : Inv1 c s) (J : Inv2 c s) (B : Inv2b s) (K : Inv3 c s) (M : Inv4 c s) (h : StepCase c s t lb s') :
     ∀ j, s'.g.itemAt j = some .stop → s'.firstMarker ≠ none ∧ ∀ j0, s'.firstMarker = some j0 → j0 ≤ j := by
   intro j hit0
   have m2 := M.m2
@@ -105,12 +108,15 @@ theorem Inv4.step_m2 (I : Inv1 c s) (J : Inv2 c s) (K : Inv3 c s) (M : Inv4 c s)
   have hne1 := dispatchPc_ne
   have hne2 := onEmpty_ne
   have hst0 : ∀ k, s.pc t = .gTake .stop k → (s.pc t).role = .stopper ∧ (s.pc t).pastB = true := by
-    intro k hp; rw [hp] at hwf ⊢; exact contOK_stop_role c k hwf
+    intro k hp
+    have hnb : ∀ k', k ≠ .bSweep k' := by
+      intro k' e; subst e; have := B.l9 t .stop k' hp; simp [Item.isTask] at this
+    rw [hp] at hwf ⊢; simp only [Pc.role, Pc.pastB]; exact contOK_stop_role c k hwf hnb
   have hidle : s.pc t = .idle → t ∉ c.workers := by
     intro hi hw; rcases I.r4 t hw with h1 | h1 <;> simp [hi, Pc.role] at h1
   have hbs : s.pc t = .bStopping → t ∉ c.workers := by
     intro hi hw; rcases I.r4 t hw with h1 | h1 <;> simp [hi, Pc.role] at h1
-  clear I J K M hwf
+  clear I J B K M hwf
   cases h
   case popClaim ctx i0 k0 nr cl hpc hq hi hcell hfull =>
     have hit := (isTask_iff cl.item).mp (l4 k0 i0 cl hcell)
@@ -134,7 +140,7 @@ theorem Inv4.step_m2 (I : Inv1 c s) (J : Inv2 c s) (K : Inv3 c s) (M : Inv4 c s)
   all_goals (trace_state; sorry)
 
 set_option maxHeartbeats 4000000 in
-theorem Inv4.step_m4 (I : Inv1 c s) (J : Inv2 c s) (K : Inv3 c s) (M : Inv4 c s) (h : StepCase c s t lb s') :
+theorem Inv4.step_m4 (I : Inv1 c s) (J : Inv2 c s) (B : Inv2b s) (K : Inv3 c s) (M : Inv4 c s) (h : StepCase c s t lb s') :
     ∀ j0, s'.firstMarker = some j0 → j0 < s'.g.cells.length := by
   intro j0 hfm
   have m4 := M.m4
@@ -160,12 +166,15 @@ theorem Inv4.step_m4 (I : Inv1 c s) (J : Inv2 c s) (K : Inv3 c s) (M : Inv4 c s)
   have hne1 := dispatchPc_ne
   have hne2 := onEmpty_ne
   have hst0 : ∀ k, s.pc t = .gTake .stop k → (s.pc t).role = .stopper ∧ (s.pc t).pastB = true := by
-    intro k hp; rw [hp] at hwf ⊢; exact contOK_stop_role c k hwf
+    intro k hp
+    have hnb : ∀ k', k ≠ .bSweep k' := by
+      intro k' e; subst e; have := B.l9 t .stop k' hp; simp [Item.isTask] at this
+    rw [hp] at hwf ⊢; simp only [Pc.role, Pc.pastB]; exact contOK_stop_role c k hwf hnb
   have hidle : s.pc t = .idle → t ∉ c.workers := by
     intro hi hw; rcases I.r4 t hw with h1 | h1 <;> simp [hi, Pc.role] at h1
   have hbs : s.pc t = .bStopping → t ∉ c.workers := by
     intro hi hw; rcases I.r4 t hw with h1 | h1 <;> simp [hi, Pc.role] at h1
-  clear I J K M hwf
+  clear I J B K M hwf
   cases h
   case popClaim ctx i0 k0 nr cl hpc hq hi hcell hfull =>
     have hit := (isTask_iff cl.item).mp (l4 k0 i0 cl hcell)
